@@ -511,8 +511,54 @@ def hand_built_format_case(ctx, rng, spec=None):
         ctx.violation(mech, dict(detail, fmt="built by hand"), case)
 
 
+def falsy_keys_enum_case(ctx, k):
+    """an enum column whose widest value is a falsy one (a yes/no flag: 'False' is longer than 'True'; a level that
+    starts at 0.0): no width is configured, every cell shows its full text"""
+    ctx.evaluated()
+    variants = [({True: "yes", False: "no"}, [True, False, False, None, True]),
+                ({True: ("on", "name_good"), False: ("off", "name_warn")}, [False, True]),
+                ({0.0: "ground", 1: "first", 2: "second"}, [1, 0.0, 2, 0.0])]
+    enum_def, values = variants[k % len(variants)]
+    mod = ["", "/val", "/full", "/name"][(k // len(variants)) % 4]
+    fmt = "flag" + mod + ("!" if k % 3 == 0 else "")
+    case = {"falsy_keys_enum": k}
+    try:
+        t = PPTable([(v, i) for i, v in enumerate(values)], fields=['flag', 'n'], fmt=fmt + ",n",
+                    fields_types={'flag': T.PPEnumFieldType(dict(enum_def))})
+        lines = T.render(t).split("\n")
+    except Exception as err:
+        ctx.violation("table-raises", {"type": type(err).__name__, "msg": str(err)[:200], "fmt": fmt}, case)
+        return
+    ctx.count("tables_over_an_enum_whose_widest_value_is_falsy")
+    val_len = max(len(str(x)) for x in enum_def)
+    if len(set(map(len, lines))) != 1:
+        ctx.violation("lines-of-different-width", {"fmt": fmt, "table": "\n".join(lines)[:300]}, case)
+        return
+    rows = [l for l in lines if l.startswith("|")][1:]     # (the first one holds the titles)
+    shown = [v for k2, v in enumerate(values)]
+    k2 = 0
+    for row in rows:
+        cell = row.split("|")[1]
+        if not cell.strip() and k % 3 == 0:
+            continue            # (a break line)
+        if k2 >= len(shown):
+            break
+        v = shown[k2]
+        k2 += 1
+        if v is None:
+            want = "None"
+        else:
+            name = enum_def[v][0] if isinstance(enum_def[v], tuple) else enum_def[v]
+            want = str(v) if mod == "/val" else name if mod == "/name" else str(v).rjust(val_len) + " " + name
+        if cell.strip() != want.strip() or "..." in cell:
+            ctx.violation("cell-shows-wrong-text", {"cell": cell, "value": want, "col": fmt, "fmt": fmt + ",n"}, case)
+            return
+
+
 def run_shard(ctx):
     big = bool(ctx.params.get("big"))
+    for k in range(16 if not big else 0):
+        falsy_keys_enum_case(ctx, ctx.shard * 16 + k)
     for i in range(ctx.cases):
         rng = ctx.rng(i)
         if i % 10 == 6 and not big:
@@ -525,6 +571,9 @@ def run_shard(ctx):
 
 
 def replay(ctx, case):
+    if "falsy_keys_enum" in case:
+        falsy_keys_enum_case(ctx, case["falsy_keys_enum"])
+        return
     if "hand_built_format" in case:
         hand_built_format_case(ctx, None, case["hand_built_format"])
         return
